@@ -8,6 +8,8 @@ import (
 	"bytes"
 	"fmt"
 	"os"
+	"os/exec"
+	"strconv"
 	"strings"
 	"sync"
 
@@ -38,6 +40,11 @@ var c06Probes = [][]byte{
 	[]byte("<html><body>x</body></html>"), {}, []byte("a,b\n1,2\n3,4\n"),
 	[]byte("{\"a\":1,\"b\":2,\"c\":[1,2,3]}"), []byte("a,b,c\n1,2,3\n4,5,6\n7,8,9\n10,11,12\n"), []byte("{\"a\":1}\n{\"b\":2}\n{\"c\":3}\n{\"d\":4}\n"),
 	[]byte("[1,2,3,4,5,6,7,8,9,10,11,12,13,14,15,16,17,18,19,20,21,22,23,24,25,26,27,28,29,30,31,32]"),
+	// scratch state shared through pools: parses that abort deep inside nested containers, followed (on whichever
+	// goroutine gets the recycled state) by documents whose verdict depends on the key path and on the CSV reader
+	[]byte("{\"log\":{\"pages\":[{\"id\":1,"), []byte("{\"a\":{\"b\":{\"c\":[[[{\"d\":"), []byte("{\"type\":\"Point\",\"coordinates\":[102.0,0.5]}"),
+	[]byte("{\"log\":{\"version\":\"1.2\",\"entries\":[]}}"), []byte("{\"asset\":{\"version\":\"2.0\"},\"scenes\":[]}"),
+	[]byte("a,b\tc\n1\np,q,r,s\n"), []byte("k,v\n1,2\n3,4\n"), []byte("k\tv\n1\t2\n3\t4\n"),
 }
 var c06Names = []string{"application/x-verif-a", "application/x-verif-a-alias", "text/x-verif-b2", "application/x-verif-d-alias", "a/e3", "a/f1", "application/zip", "text/plain", "application/json", "nope/nope"}
 
@@ -83,23 +90,66 @@ func lookupString(name string) string {
 	return m.String() + "|" + m.Extension() + "|" + par + "|" + fmt.Sprint(m.Is(name))
 }
 
-// sequential oracle: for every version (number of ops applied) and limit, the result of every probe
+// sequential oracle: for every version (number of ops applied) and limit, the result of every probe - each one
+// computed in a process of its own (a fresh pool, no earlier detection), so that state leaking between
+// detections cannot enter the table
+func cmdC06One(args []string) {
+	v, _ := strconv.Atoi(args[0])
+	l, _ := strconv.Atoi(args[1])
+	pi, _ := strconv.Atoi(args[2])
+	for k := 0; k < v; k++ {
+		applyOp(c06Ops[k])
+	}
+	mimetype.SetLimit(uint32(l))
+	p := c06Probes[pi]
+	if args[3] == "D" {
+		fmt.Printf("D\t%d\t%d\t%s\n", pi, l, resString(mimetype.Detect(p)))
+		return
+	}
+	r, err := mimetype.DetectReader(bytes.NewReader(p))
+	if err != nil {
+		fmt.Printf("D\t%d\t%d\tERR\n", pi, l)
+	} else {
+		fmt.Printf("D\t%d\t%d\t%s\n", pi, l, resString(r))
+	}
+}
+
 func cmdC06Seq(args []string) {
+	self, _ := os.Executable()
+	var mu sync.Mutex
+	var wg sync.WaitGroup
+	sem := make(chan struct{}, 16)
+	lines := map[string]bool{}
+	for v := 0; v <= len(c06Ops); v++ {
+		for _, l := range c06Limits {
+			for pi := range c06Probes {
+				for _, mode := range []string{"D", "R"} {
+					wg.Add(1)
+					sem <- struct{}{}
+					go func(v int, l uint32, pi int, mode string) {
+						defer wg.Done()
+						defer func() { <-sem }()
+						out, err := exec.Command(self, "c06-one", strconv.Itoa(v), strconv.Itoa(int(l)), strconv.Itoa(pi), mode).Output()
+						mu.Lock()
+						if err != nil {
+							lines[fmt.Sprintf("!oracle-child-failed\t%d\t%d\t%d\t%v", v, l, pi, err)] = true
+						} else {
+							lines[strings.TrimSpace(string(out))] = true
+						}
+						mu.Unlock()
+					}(v, l, pi, mode)
+				}
+			}
+		}
+	}
+	wg.Wait()
+	for ln := range lines {
+		fmt.Println(ln)
+	}
+	// Lookup results per version (no scratch state involved): one sequential pass
 	for v := 0; v <= len(c06Ops); v++ {
 		if v > 0 {
 			applyOp(c06Ops[v-1])
-		}
-		for _, l := range c06Limits {
-			mimetype.SetLimit(l)
-			for pi, p := range c06Probes {
-				fmt.Printf("D\t%d\t%s\n", pi, resString(mimetype.Detect(p)))
-				r, err := mimetype.DetectReader(bytes.NewReader(p))
-				if err != nil {
-					fmt.Printf("D\t%d\tERR\n", pi)
-				} else {
-					fmt.Printf("D\t%d\t%s\n", pi, resString(r))
-				}
-			}
 		}
 		for ni, n := range c06Names {
 			fmt.Printf("L\t%d\t%s\n", ni, lookupString(n))
@@ -122,9 +172,20 @@ func cmdRunC06(args []string) {
 		fmt.Println("!propfail\tC06\tharness: no sequential oracle")
 		os.Exit(2)
 	}
+	oracleFixed := map[string]bool{} // results at the default limit only (phase with no SetLimit caller)
 	for _, line := range strings.Split(string(data), "\n") {
-		if line != "" {
+		if line == "" {
+			continue
+		}
+		f := strings.SplitN(line, "\t", 4)
+		if f[0] == "D" && len(f) == 4 {
+			oracle["D\t"+f[1]+"\t"+f[3]] = true
+			if f[2] == "3072" {
+				oracleFixed["D\t"+f[1]+"\t"+f[3]] = true
+			}
+		} else {
 			oracle[line] = true
+			oracleFixed[line] = true
 		}
 	}
 	rounds := 300
@@ -144,6 +205,36 @@ func cmdRunC06(args []string) {
 		}
 		mu.Unlock()
 	}
+	// phase 0: the limit stays at its default (nobody calls SetLimit), readers run against each other only: every
+	// result must be the one the sequential execution returns at that limit - a result that is legitimate only
+	// under some other limit is a failure here (scratch state leaking between detections shows up this way)
+	mimetype.SetLimit(3072)
+	var wg0 sync.WaitGroup
+	for g := 0; g < 6; g++ {
+		wg0.Add(1)
+		go func(g int) {
+			defer wg0.Done()
+			for i := 0; i < rounds; i++ {
+				pi := (i*(1+g%3) + g) % len(c06Probes)
+				var got string
+				if g%2 == 0 {
+					got = resString(mimetype.Detect(c06Probes[pi]))
+				} else if m, err := mimetype.DetectReader(bytes.NewReader(c06Probes[pi])); err != nil {
+					got = "ERR"
+				} else {
+					got = resString(m)
+				}
+				key := fmt.Sprintf("D\t%d\t%s", pi, got)
+				mu.Lock()
+				nres++
+				if !oracleFixed[key] {
+					bad["(limit fixed at 3072) "+key] = true
+				}
+				mu.Unlock()
+			}
+		}(g)
+	}
+	wg0.Wait()
 	start := make(chan struct{})
 	// writers
 	wg.Add(2)
@@ -231,5 +322,6 @@ func cmdRunC06(args []string) {
 
 func init() {
 	commands["c06-seq"] = cmdC06Seq
+	commands["c06-one"] = cmdC06One
 	commands["run-c06"] = cmdRunC06
 }
